@@ -5,6 +5,7 @@ import Driver.C10
 import Driver.C12
 import Driver.Scheme
 import Driver.C01
+import Driver.C01E
 import Driver.C02
 import Driver.C03
 import Driver.C04
@@ -21,7 +22,7 @@ import Driver.C19
 import Driver.C20
 open Drv
 
-def handlers : List (String → Handler) := [Drv.C08.handle, Drv.C09.handle, Drv.C10.handle, Drv.C12.handle, Drv.Sch.handle, Drv.C01.handle, Drv.C02.handle, Drv.C03.handle, Drv.C05.handle, Drv.C04.handle, Drv.C06.handle, Drv.KS.handle, Drv.C13.handle, Drv.C14.handle, Drv.C15.handle, Drv.C16.handle, Drv.C17.handle, Drv.C18.handle, Drv.C19.handle, Drv.C20.handle]
+def handlers : List (String → Handler) := [Drv.C08.handle, Drv.C09.handle, Drv.C10.handle, Drv.C12.handle, Drv.Sch.handle, Drv.C01.handle, Drv.C01E.handle, Drv.C02.handle, Drv.C03.handle, Drv.C05.handle, Drv.C04.handle, Drv.C06.handle, Drv.KS.handle, Drv.C13.handle, Drv.C14.handle, Drv.C15.handle, Drv.C16.handle, Drv.C17.handle, Drv.C18.handle, Drv.C19.handle, Drv.C20.handle]
 
 def answer (line : String) : String :=
   let (lhs, impl) := match line.trimAscii.toString.splitOn " => " with
